@@ -109,9 +109,12 @@ structure Pres (s s' : State) : Prop where
   idx : ∀ t u, u ∈ idxGet s'.idx t → u ∈ idxGet s.idx t
   loggers : ∀ u, u ∈ s'.loggers → u ∈ s.loggers
   out : ∃ ext, s'.out = s.out ++ ext            -- the event log only grows
+  uids : (s'.mods.map (·.uid)).Sublist (s.mods.map (·.uid))   -- table entries are only dropped, never added or reordered
+  nuid : s'.nextUid = s.nextUid
 
 theorem Pres.refl (s : State) : Pres s s :=
-  ⟨rfl, rfl, fun _ _ => rfl, fun _ h => h, fun _ m h => ⟨m, h, rfl, id⟩, fun _ _ h => h, fun _ h => h, ⟨[], by simp⟩⟩
+  ⟨rfl, rfl, fun _ _ => rfl, fun _ h => h, fun _ m h => ⟨m, h, rfl, id⟩, fun _ _ h => h, fun _ h => h, ⟨[], by simp⟩,
+   List.Sublist.refl _, rfl⟩
 
 theorem Pres.trans {a b c : State} (h1 : Pres a b) (h2 : Pres b c) : Pres a c :=
   ⟨h2.wlist.trans h1.wlist, h2.fail.trans h1.fail,
@@ -122,21 +125,36 @@ theorem Pres.trans {a b c : State} (h1 : Pres a b) (h2 : Pres b c) : Pres a c :=
      obtain ⟨m, hm, hi, hc⟩ := h1.sub u m' hm'
      exact ⟨m, hm, hi'.trans hi, fun x => hc (hc' x)⟩,
    fun t u h => h1.idx t u (h2.idx t u h), fun u h => h1.loggers u (h2.loggers u h),
-   by obtain ⟨e1, h1'⟩ := h1.out; obtain ⟨e2, h2'⟩ := h2.out; exact ⟨e1 ++ e2, by rw [h2', h1', List.append_assoc]⟩⟩
+   by obtain ⟨e1, h1'⟩ := h1.out; obtain ⟨e2, h2'⟩ := h2.out; exact ⟨e1 ++ e2, by rw [h2', h1', List.append_assoc]⟩,
+   h2.uids.trans h1.uids, h2.nuid.trans h1.nuid⟩
+
+theorem uids_upd (s : State) (u : Nat) (f : Module → Module) (hu : ∀ m, (f m).uid = m.uid) :
+    (s.upd u f).mods.map (·.uid) = s.mods.map (·.uid) := by
+  unfold State.upd
+  simp only [List.map_map]
+  apply List.map_congr_left
+  intro m _
+  simp only [Function.comp]
+  split
+  · exact hu m
+  · rfl
 
 theorem pres_emit (s : State) (e : Ev) : Pres s (s.emit e) :=
-  ⟨rfl, rfl, fun _ _ => rfl, fun _ h => h, fun _ m h => ⟨m, h, rfl, id⟩, fun _ _ h => h, fun _ h => h, ⟨[e], rfl⟩⟩
+  ⟨rfl, rfl, fun _ _ => rfl, fun _ h => h, fun _ m h => ⟨m, h, rfl, id⟩, fun _ _ h => h, fun _ h => h, ⟨[e], rfl⟩,
+   List.Sublist.refl _, rfl⟩
 
 theorem pres_crash (s : State) (w : String) : Pres s (s.crash w) := by
   unfold State.crash; split
   · exact Pres.refl s
-  · exact ⟨rfl, rfl, fun _ _ => rfl, fun _ h => h, fun _ m h => ⟨m, h, rfl, id⟩, fun _ _ h => h, fun _ h => h, ⟨[], by simp⟩⟩
+  · exact ⟨rfl, rfl, fun _ _ => rfl, fun _ h => h, fun _ m h => ⟨m, h, rfl, id⟩, fun _ _ h => h, fun _ h => h, ⟨[], by simp⟩,
+      List.Sublist.refl _, rfl⟩
 
 theorem pres_upd (s : State) (u : Nat) (f : Module → Module) (hu : ∀ m, (f m).uid = m.uid)
     (hi : ∀ m, (f m).ident = m.ident) (hcn : ∀ m, (f m).connected = true → m.connected = true)
     (hk : ∀ v m, failOf s v = none → s.find v = some m → m.uid = u → (f m).core = m.core) :
     Pres s (s.upd u f) := by
-  refine ⟨rfl, rfl, fun v hv => ?_, fun v hv => ?_, fun v m' h => ?_, fun _ _ h => h, fun _ h => h, ⟨[], by simp [State.upd]⟩⟩
+  refine ⟨rfl, rfl, fun v hv => ?_, fun v hv => ?_, fun v m' h => ?_, fun _ _ h => h, fun _ h => h, ⟨[], by simp [State.upd]⟩,
+    by rw [uids_upd s u f hu]; exact List.Sublist.refl _, rfl⟩
   · rw [find_upd s u v f hu]
     cases h : s.find v with
     | none => rfl
@@ -287,7 +305,8 @@ theorem failedMsg_ok (cfg : Cfg) {B} (hB : Tag cfg B) {fwd : Fwd} (hf : FwdOK B 
 
 theorem pres_dropMod (s : State) (u : Nat) (hf : failOf s u ≠ none) :
     Pres s { s with mods := s.mods.filter (·.uid != u) } := by
-  refine ⟨rfl, rfl, fun v hv => ?_, fun v hv => ?_, fun v m' h => ?_, fun _ _ h => h, fun _ h => h, ⟨[], by simp⟩⟩
+  refine ⟨rfl, rfl, fun v hv => ?_, fun v hv => ?_, fun v m' h => ?_, fun _ _ h => h, fun _ h => h, ⟨[], by simp⟩,
+    List.Sublist.map _ List.filter_sublist, rfl⟩
   · have hne : v ≠ u := by intro h; subst h; exact hf hv
     show Option.map Module.core ((s.mods.filter (·.uid != u)).find? (·.uid == v)) = _
     rw [find_filter_ne _ _ _ hne]; rfl
@@ -321,7 +340,8 @@ theorem removePrep_ok (B : Body → Bool) (s : State) (u : Nat) (m : Module) (hf
   have p1 : Pres s s1 := by
     subst hs1
     exact ⟨rfl, rfl, fun _ _ => rfl, fun _ h => h, fun _ m h => ⟨m, h, rfl, id⟩,
-           fun t v h => idxGet_discards m.subs s.idx t u v h, fun v h => (List.mem_filter.mp h).1, ⟨[], by simp⟩⟩
+           fun t v h => idxGet_discards m.subs s.idx t u v h, fun v h => (List.mem_filter.mp h).1, ⟨[], by simp⟩,
+           List.Sublist.refl _, rfl⟩
   have q1 : Quiet B s s1 := by subst hs1; rfl
   generalize hs2 : (if m.closed then s1 else s1.emit (.close u)) = s2
   have p2 : Pres s1 s2 := by subst hs2; split; exact Pres.refl _; exact pres_emit _ _
@@ -472,7 +492,8 @@ theorem deliver_ok (cfg : Cfg) {B} (hB : Tag cfg B) {fwd : Fwd} (hf : FwdOK B fw
 theorem countMsg_pres (cfg : Cfg) (s : State) (t : Int) : Pres s (countMsg cfg s t) := by
   unfold countMsg; split
   · exact Pres.refl s
-  · exact ⟨rfl, rfl, fun _ _ => rfl, fun _ h => h, fun _ m h => ⟨m, h, rfl, id⟩, fun _ _ h => h, fun _ h => h, ⟨[], by simp⟩⟩
+  · exact ⟨rfl, rfl, fun _ _ => rfl, fun _ h => h, fun _ m h => ⟨m, h, rfl, id⟩, fun _ _ h => h, fun _ h => h, ⟨[], by simp⟩,
+      List.Sublist.refl _, rfl⟩
 
 theorem countMsg_out (cfg : Cfg) (s : State) (t : Int) : (countMsg cfg s t).out = s.out := by
   unfold countMsg; split <;> rfl
